@@ -137,6 +137,30 @@ Proof.
 Qed.
 Print Assumptions C04_removed_during_visit.
 
+(* Release after the end of the data (what crsr.WaitNewData relies on): when every mixer of the tree has reported EOF, Release
+   forgets every selection and every eof flag, in nested mixers too. Whatever the sources offer afterwards (`grow`: new
+   records became readable behind the mixers' back; any leaf states honouring the iterator contract), the next Get asks
+   every source again: it returns the head of the stable merge of what the sources offer now, and the tree is again a
+   list cursor over that merge. *)
+Theorem C04_release_rereads : forall (rest : leaf -> list ev) (ok : leaf -> Prop) (bk : bool),
+  (forall l, ok l -> ok (fst (l_get l)) /\ rest (fst (l_get l)) = rest l /\ snd (l_get l) = hd_error (rest l)) ->
+  (forall l, ok l -> ok (l_next l) /\ rest (l_next l) = tl (rest l)) ->
+  forall t (grow : nat -> leaf -> leaf), all_eof t -> dir bk t ->
+    let t' := mx_map_leaves grow (mx_release t) in
+    Forall (fun s => ok (snd s)) (mx_leaves t') ->
+    mx_leaves t' = map (fun s => (fst s, grow (fst s) (snd s))) (mx_leaves t) /\
+    snd (mx_get t') = hd_error (content rest bk t') /\
+    forall ops fuel n, Forall plain_op ops -> run_ops fuel (mkCur t' None None false n) ops = spec_run (content rest bk t') ops.
+Proof.
+  intros rest ok bk Hg Hn t grow E D t' OK.
+  destruct (release_all_eof bk t E D) as (Fr & Lr). destruct (map_leaves_fresh bk grow _ Fr) as (Fm & Lm). fold t' in Fm, Lm.
+  pose proof (fresh_wf rest ok bk t' Fm OK) as W.
+  split; [rewrite Lm, Lr; reflexivity|]. split.
+  - destruct (get_spec rest ok bk Hg t' W) as (_ & _ & G & _). exact G.
+  - intros ops fuel n P. exact (run_ops_spec rest ok bk Hg Hn ops fuel t' n None false W P).
+Qed.
+Print Assumptions C04_release_rereads.
+
 (* non-vacuity: five in-memory sources (one empty, ties, one unsorted), odd carry-over twice; the merge of the
    model run by the operations equals the statement's `out`, forward and backward *)
 Example C04_nonvacuous :
@@ -154,3 +178,18 @@ Proof. cbv zeta. split; [repeat constructor; cbn; lia|vm_compute; split; reflexi
    from /repo on every run) *)
 Example C04_constants : merge_limit = go_cursorMaxSources.
 Proof. reflexivity. Qed.
+
+(* non-vacuity of C04_release_rereads: three sources (a nested mixer over the first two) read to the end: every mixer has
+   reported EOF; a record appended to a source under the NESTED mixer is returned by the first Get after Release *)
+Example C04_release_nonvacuous :
+  let mk := fun (g : nat) recs => (g, LMem (Z.of_nat g + 1) recs (mkCit 0 false)) in
+  match build_tree (map (fun s => MLeaf (fst s) (snd s)) [mk 0%nat [(1, 1%nat)]; mk 1%nat [(2, 2%nat)]; mk 2%nat [(3, 3%nat)]]) with
+  | Some t0 =>
+      let t := fst (mx_get (mx_next (mx_next (mx_next t0)))) in
+      let grow := fun (g : nat) (l : leaf) =>
+        match l with LMem m recs c => if Nat.eqb g 1 then LMem m (recs ++ [(9, 9%nat)]) c else l | _ => l end in
+      all_eof t /\ dir false t /\ height t = 2%nat /\ snd (mx_get t) = None /\
+      snd (mx_get (mx_map_leaves grow (mx_release t))) = Some ((9, 9%nat), 1%nat)
+  | None => False
+  end.
+Proof. vm_compute. repeat split; reflexivity. Qed.
